@@ -373,27 +373,32 @@ def r12_iteration_exits(ctx):
                   % (it.name, describe(badp) if badp else 'no elect call found'))
         # exclusions in the main loop happen only after an iteration that did not elect
         loop = ri.main_loop()
-        el_tests = []
+        el_tests = []      # (test node, label of the edge on which the status is known NOT to be 'elected')
         for t in cfg.nodes_in(loop):
             if t.kind == 'test' and isinstance(t.ast, ast.If):
-                # the False edge must entail "status is not 'elected'"
-                for l in literals(atoms.formula(t.ast.test), False) or []:
-                    if l[0] == 'tok' and l[2] == 'elected' and not l[3]:
-                        el_tests.append(t)
+                for lab in (False, True):
+                    for l in literals(atoms.formula(t.ast.test), lab) or []:
+                        if l[0] == 'tok' and l[2] == 'elected' and not l[3]:
+                            el_tests.append((t, lab))
         ctx.check(len(el_tests) == 1, R, loop, f, 'the round tests whether the iteration elected somebody', 'if iterationStatus == elected: continue',
                   'no test of the iteration status for "elected" in the main loop')
         if len(el_tests) == 1:
-            t = el_tests[0]
-            cont = all(isinstance(s, ast.Continue) for s in t.ast.body)
-            ctx.check(cont, R, t.ast, f, 'a round in which the iteration elected somebody ends without an exclusion', 'the elected branch is `continue`',
-                      'the elected branch does more than `continue`')
+            t, lab = el_tests[0]
+            head_ = cfg.of_stmt[loop]
+            # on the OTHER edge (the iteration elected somebody) the round ends: nothing but the way back to the loop head
+            other_first = [x for x, l_ in t.succ if l_ is (not lab)]
+            reach_e = cfg.reach(other_first, avoid=[head_], include_start=True) if other_first else set()
+            cont = not any(node_effects(ctx, f, x) for x in reach_e if x is not head_) and not any(
+                x.kind == 'stmt' and isinstance(x.ast, (ast.Assign, ast.AugAssign, ast.Expr)) and not isinstance(x.ast, ast.Pass) and calls_at(x) for x in reach_e if x is not head_)
+            ctx.check(cont, R, t.ast, f, 'a round in which the iteration elected somebody ends without an exclusion', 'the elected branch goes straight to the next round',
+                      'the elected branch does more than go on to the next round')
             for call in attr_calls(f, ('defeat',)):
                 dn = cfg_node_of(ctx, f, call)
                 if dn not in cfg.nodes_in(loop):
                     continue
-                ok = dn not in cfg.reach([cfg.of_stmt[loop]], edge_ok=lambda a, b, lab, t=t: not (a is t and lab is False))
+                ok = dn not in cfg.reach([cfg.of_stmt[loop]], edge_ok=lambda a, b, l_, t=t, lab=lab: not (a is t and l_ is lab))
                 ctx.check(ok, R, call, f, 'candidates are excluded only after an iteration that ended without an election (converged, stable or sure losers)',
-                          'the defeat is dominated by the False edge of `iterationStatus == elected`',
+                          'the defeat is dominated by the not-elected edge of the status test',
                           'an exclusion can happen in a round whose iteration elected a candidate / before the iteration ended')
 
 
